@@ -281,6 +281,27 @@ class Projector:
                     "addr": b.address if b.address is not None else -1,
                 })
             iann.sort(key=lambda a: (a["p"], a["t"]))
+            # bytes that no block covers (filler in front of / between blocks)
+            gaps = []
+            for bi in bis:
+                cov = bytearray(bi.size)
+                for b in bi.blocks:
+                    lo, hi = max(b.offset, 0), min(b.offset + b.size, bi.size)
+                    if lo < hi:
+                        cov[lo:hi] = b"\1" * (hi - lo)
+                o = 0
+                while o < bi.size:
+                    if cov[o]:
+                        o += 1
+                        continue
+                    e = o
+                    while e < bi.size and not cov[e]:
+                        e += 1
+                    gp = base[bi.uuid] + o
+                    gaps.append({"u": 900000 + len(gaps) + 1000 * len(out_secs), "p": gp,
+                                 "by": list(data[gp : gp + e - o])})
+                    o = e
+            gaps.sort(key=lambda g: g["p"])
             # expressions outside any block / outside interval
             sx_out = []
             for bi in bis:
@@ -290,7 +311,7 @@ class Projector:
             out_secs.append({
                 "name": sec.name, "size": len(data), "bytes": list(data),
                 "blocks": oblocks,
-                "iann": iann, "sxout": sx_out,
+                "iann": iann, "sxout": sx_out, "gaps": gaps,
                 "nbi": len(bis), "noaddr": sum(1 for bi in bis if bi.address is None),
             })
 
